@@ -24,6 +24,8 @@ def leaf_cycle(P):
 
 def h(cfg):
     P, w, tasks = setup(cfg, backward=cfg.get('backward', False))
+    cfg = P.cfg
+    P.any_exception_is_outcome = True
     must_raise = []
     if cfg.get('nameless'):
         for t in tasks:
